@@ -1,4 +1,4 @@
-import CoapVerif.Lemmas.ObserveBase
+import CoapVerif.Lemmas.ObserveLeF
 /- Run-level (global) lemmas for C11: what one walk of the notify loop does to each entry (`Visit`), how every primitive
    acts on ONE resource and on what is written about it (`Micro`, `Trans`), and the lifting to `step` / `run`. -/
 namespace Coap.Observe
@@ -217,7 +217,7 @@ theorem Visits.target {d : Bool} {r : Res} {subs subs' : List Sub} {pd : Bool} {
 /-- `A rid c tok`: a registration request of (session c, token tok) on resource rid is being handled -/
 inductive Micro (A : Nat → Nat → Nat → Prop) : Res → List Out → Res → Prop where
   /-- entries removed, fail counters touched -/
-  | le {y y' : Res} : ResLe y' y → Micro A y [] y'
+  | le {y y' : Res} : ResLeF y' y → Micro A y [] y'
   | errFlag {y : Res} (b : Bool) : Micro A y [] { y with err := b }
   /-- coap_resource_notify_observers_lkd -/
   | change {y : Res} : Micro A y [] { y with dirty := true, observe := nextObserve y.observe, ver := y.ver + 1 }
@@ -316,7 +316,7 @@ theorem StepRel.trans {A : Nat → Nat → Nat → Prop} {st2 st1 st : State} {o
   rw [this] at hxy
   exact hyz.trans hxy
 
-theorem StepRel.of_le {A : Nat → Nat → Nat → Prop} {st' st : State} {outs : List Out} (h : AllLe st'.res st.res)
+theorem StepRel.of_le {A : Nat → Nat → Nat → Prop} {st' st : State} {outs : List Out} (h : AllLeF st'.res st.res)
     (ho : ∀ o ∈ outs, o.tag = .rtx) : StepRel A st' st outs := by
   unfold StepRel
   refine All2.mono ?_ h
@@ -328,11 +328,11 @@ theorem StepRel.of_le {A : Nat → Nat → Nat → Prop} {st' st : State} {outs 
   rw [this]
   exact Trans.single (.le hxy)
 
-theorem StepRel.of_le_nil {A : Nat → Nat → Nat → Prop} {st' st : State} (h : AllLe st'.res st.res) : StepRel A st' st [] :=
+theorem StepRel.of_le_nil {A : Nat → Nat → Nat → Prop} {st' st : State} (h : AllLeF st'.res st.res) : StepRel A st' st [] :=
   StepRel.of_le h (fun o ho => by cases ho)
 
 theorem StepRel.of_eq {A : Nat → Nat → Nat → Prop} {st' st : State} (h : st'.res = st.res) : StepRel A st' st [] :=
-  StepRel.of_le_nil (h ▸ AllLe.refl _)
+  StepRel.of_le_nil (h ▸ AllLeF.refl _)
 
 /-! ### the notify loop over all resources -/
 theorem notifyRes_micro (A : Nat → Nat → Nat → Prop) (d : Bool) (r : Res) (st : State) :
@@ -436,7 +436,7 @@ theorem io_rel (A : Nat → Nat → Nat → Prop) (st : State) (hid : IdsNodup s
   have h1 := checkNotify_rel A st hid
   have h2 : StepRel A (reclaim (retransmitDue ((checkNotify st).1.sendq.length + 1) (checkNotify st).1).1) (checkNotify st).1
       (retransmitDue ((checkNotify st).1.sendq.length + 1) (checkNotify st).1).2 :=
-    StepRel.of_le (by simp only [reclaim_res]; exact retransmitDue_le _ _) (retransmitDue_outs _ _)
+    StepRel.of_le (by simp only [reclaim_res]; exact retransmitDue_leF _ _) (retransmitDue_outs _ _)
   exact h1.trans h2
 
 /-! ### every primitive as a resource-wise map; lifting to `step` -/
@@ -535,18 +535,18 @@ theorem deleteObserver_res (st : State) (r c tok : Nat) (hid : IdsNodup st) :
           exact ha (List.any_eq_true.mpr ⟨s, hs, hm⟩)
         rw [this]
       · rfl
-theorem touchR_le (c tok : Nat) (y : Res) : ResLe (touchR c tok y) y := by
+theorem touchR_le (c tok : Nat) (y : Res) : ResLeF (touchR c tok y) y := by
   unfold touchR
   split
-  · apply resLe_subs; unfold SubsLe
-    rw [modFirst_core (matchST c tok) (fun s => { s with failCnt := 0 }) (fun s => rfl) y.subs]; exact List.Sublist.refl _
-  · exact ResLe.refl y
+  · apply resLe_subsF; unfold SubsLeF
+    rw [modFirst_coreF (matchST c tok) (fun s => { s with failCnt := 0 }) (fun s => rfl) y.subs]; exact List.Sublist.refl _
+  · exact ResLeF.refl y
 
-theorem delR_le (r c tok : Nat) (y : Res) : ResLe (delR r c tok y) y := by
+theorem delR_le (r c tok : Nat) (y : Res) : ResLeF (delR r c tok y) y := by
   unfold delR
   split
-  · exact resLe_subs y (SubsLe.of_sublist List.eraseP_sublist)
-  · exact ResLe.refl y
+  · exact resLe_subsF y (SubsLeF.of_sublist List.eraseP_sublist)
+  · exact ResLeF.refl y
 
 theorem touchR_fields (c tok : Nat) (y : Res) : (touchR c tok y).id = y.id ∧ (touchR c tok y).alive = y.alive := by
   unfold touchR; split <;> exact ⟨rfl, rfl⟩
@@ -557,7 +557,7 @@ theorem addR_fields (r c tok key m : Nat) (y : Res) : (addR r c tok key m y).id 
   · exact ⟨rfl, rfl⟩
 
 /-- registration answered with an error: the entry just added (or found) is deleted again — all that is left is a sub-list -/
-theorem add_touch_del_le (r c tok key m : Nat) (y : Res) : ResLe (delR r c tok (touchR c tok (addR r c tok key m y))) y := by
+theorem add_touch_del_le (r c tok key m : Nat) (y : Res) : ResLeF (delR r c tok (touchR c tok (addR r c tok key m y))) y := by
   by_cases h : y.id = r ∧ y.alive = true
   · by_cases ha : y.subs.any (matchST c tok) = true
     · have : addR r c tok key m y = y := by unfold addR; rw [if_pos h]; exact addToRes_found ha
@@ -580,9 +580,8 @@ theorem add_touch_del_le (r c tok key m : Nat) (y : Res) : ResLe (delR r c tok (
       unfold modFirst
       rw [if_pos hm]
       rw [List.eraseP_cons_of_pos (by simp [matchST])]
-      refine ⟨rfl, rfl, rfl, rfl, rfl, rfl, rfl, rfl, ?_⟩
-      dsimp only
-      apply SubsLe.of_sublist
+      refine ⟨rfl, rfl, rfl, rfl, rfl, rfl, rfl, rfl, rfl, ?_⟩
+      apply SubsLeF.of_sublist
       split
       · exact List.eraseP_sublist
       · exact List.Sublist.refl _
@@ -596,7 +595,7 @@ theorem filter_single_fromRes (rid : Nat) (out : Out) (h1 : out.tag ≠ .rtx) :
   by_cases h : out.res = rid <;> simp [h, h1]
 
 /-- a response that is not a successful registration, while entries at most disappear -/
-theorem StepRel.resp_le {A : Nat → Nat → Nat → Prop} {st' st : State} {out : Out} (h : AllLe st'.res st.res)
+theorem StepRel.resp_le {A : Nat → Nat → Nat → Prop} {st' st : State} {out : Out} (h : AllLeF st'.res st.res)
     (ht : out.tag = .resp) (ho : out.obs = none ∨ out.code ≠ 69) : StepRel A st' st [out] := by
   unfold StepRel
   refine All2.mono ?_ h
@@ -687,25 +686,25 @@ theorem request_rel_other (A : Nat → Nat → Nat → Prop) (st : State) (o : O
   unfold request
   dsimp only
   split
-  · exact StepRel.resp_le (AllLe.refl _) rfl (Or.inl rfl)
-  · have h1 : AllLe (match o with
+  · exact StepRel.resp_le (AllLeF.refl _) rfl (Or.inl rfl)
+  · have h1 : AllLeF (match o with
                | some 0 => touchObserver (addObserver (rxSession st c) r c tok key) c tok
                | some 1 => deleteObserverRequest (rxSession st c) r c tok key
                | _ => rxSession st c).res st.res := by
       split
       · exact absurd rfl ho
-      · exact deleteObserverRequest_le ..
-      · exact AllLe.refl _
+      · exact deleteObserverRequest_leF ..
+      · exact AllLeF.refl _
     split
     · refine StepRel.resp_le ?_ rfl (Or.inl rfl)
       split
-      · exact (deleteObserver_le ..).trans h1
+      · exact (deleteObserver_leF ..).trans h1
       · exact h1
     · refine StepRel.resp_le h1 rfl (Or.inl ?_)
       simp
 
 theorem touchObserver_ids (st : State) (c tok : Nat) : resIds (touchObserver st c tok) = resIds st :=
-  (touchObserver_le ..).idLe.ids
+  (touchObserver_leF ..).le.idLe.ids
 
 theorem request_rel_reg (st : State) (c r tok key : Nat) (con : Bool) (mid : Nat) (hid : IdsNodup st) :
     StepRel (fun rid c' tok' => rid = r ∧ c' = c ∧ tok' = tok) (request st (some 0) c r tok key con mid).1 st
@@ -713,7 +712,7 @@ theorem request_rel_reg (st : State) (c r tok key : Nat) (con : Bool) (mid : Nat
   unfold request
   dsimp only
   cases hx : findRes (rxSession st c) r with
-  | none => exact StepRel.resp_le (AllLe.refl _) rfl (Or.inl rfl)
+  | none => exact StepRel.resp_le (AllLeF.refl _) rfl (Or.inl rfl)
   | some x =>
     dsimp only
     have hx' : findRes st r = some x := hx
@@ -729,7 +728,7 @@ theorem request_rel_reg (st : State) (c r tok key : Nat) (con : Bool) (mid : Nat
       have hid1 : IdsNodup (touchObserver (addObserver (rxSession st c) r c tok key) c tok) := by
         unfold IdsNodup; rw [touchObserver_ids, addObserver_ids]; exact hid
       rw [deleteObserver_res _ r c tok hid1, hres1, List.map_map]
-      exact AllLe.map (f := (delR r c tok) ∘ fun y => touchR c tok (addR r c tok key m y)) (fun y => add_touch_del_le r c tok key m y) st.res
+      exact AllLeF.map (f := (delR r c tok) ∘ fun y => touchR c tok (addR r c tok key m y)) (fun y => add_touch_del_le r c tok key m y) st.res
     · rw [if_neg he]
       unfold StepRel
       simp only [txStamp_res, hres1]
@@ -781,18 +780,18 @@ theorem step_rel (st : State) (e : Event) (hid : IdsNodup st) : StepRel (RegEv e
     unfold step; dsimp only
     split
     · split
-      · refine rxThenIo_rel _ st _ ?_ (StepRel.of_le_nil (handleAck_le ..))
-        unfold IdsNodup resIds; dsimp only; rw [(handleAck_le ..).idLe.ids]; exact hid
+      · refine rxThenIo_rel _ st _ ?_ (StepRel.of_le_nil (handleAck_leF ..))
+        unfold IdsNodup resIds; dsimp only; rw [(handleAck_leF ..).le.idLe.ids]; exact hid
       · exact StepRel.of_eq rfl
     · exact StepRel.of_eq rfl
   | rst c n =>
     unfold step; dsimp only
     split
-    · refine rxThenIo_rel _ st _ ?_ (StepRel.of_le_nil (handleRst_le ..))
-      unfold IdsNodup resIds; dsimp only; rw [(handleRst_le ..).idLe.ids]; exact hid
+    · refine rxThenIo_rel _ st _ ?_ (StepRel.of_le_nil (handleRst_leF ..))
+      unfold IdsNodup resIds; dsimp only; rw [(handleRst_leF ..).le.idLe.ids]; exact hid
     · exact StepRel.of_eq rfl
   | err r b => exact errFlag_rel _ st r b
-  | lost c => exact StepRel.of_le_nil (sessionLost_le ..)
+  | lost c => exact StepRel.of_le_nil (sessionLost_leF ..)
   | del r => exact deleteResource_rel _ st r hid
 
 end Coap.Observe
